@@ -141,7 +141,14 @@ func FuzzVerifC13DecodeFixpoint(f *testing.F) {
 // vC13SaneBlock keeps the fuzzer away from corrupt headers that make the decoders allocate
 // gigabytes (a run-length count or a snappy length taken from the bytes): that would kill the
 // fuzz worker, and what a corrupt block does to a decoder is outside the property.
-func vC13SaneBlock(blk []byte) bool {
+func vC13SaneBlock(blk []byte) (sane bool) {
+	// unpackBlock itself panics on a timestamp-section length that overflows int (observation: a corrupt block
+	// header, outside this property) - such a block is simply not sane
+	defer func() {
+		if recover() != nil {
+			sane = false
+		}
+	}()
 	tb, vb, err := unpackBlock(blk[1:])
 	if err != nil || len(tb) == 0 || len(vb) == 0 {
 		return false
